@@ -159,8 +159,9 @@ pub fn child(k: usize, outdir: &str, seed: u64, thorough: bool) -> serde_json::V
         if catch_unwind(AssertUnwindSafe(|| { let _ = rel.schema().to_string(); let _ = rel.size().to_string(); let _ = rel.to_string(); })).is_err() { fail(&mut st, "schema"); }
         match catch_unwind(AssertUnwindSafe(|| render(&rel))) { Ok(_) => st.bump("rendered"), Err(_) => fail(&mut st, "render") }
         // rewritings
-        let p = match r.below(6) { 0 => DpParameters::new(0.0, 0.0, 0.5, 100.0, 0.1, 5), 1 => DpParameters::new(1.0, 1e-5, 0.0, 100.0, 0.1, 5), 2 => DpParameters::new(1.0, 1e-5, 1.0, 100.0, 0.1, 5),
-            3 => DpParameters::new(1e-300, 1e-300, 0.5, 1.0, 0.0, 1), 4 => DpParameters::new(1e6, 0.999, 0.5, 1e18, 1.0, 1000000), _ => DpParameters::from_epsilon_delta(1.0, 1e-5) };
+        // every field of the parameters at its corners, independently (half of the time), or one of six presets
+        let p = if r.chance(1, 2) { DpParameters::new(*r.pick(&[1.0, 1e-300, 1e6, 0.5]), *r.pick(&[1e-5, 1e-300, 0.999, 1e-9]), *r.pick(&[0.5, 0.0, 1.0, 0.9]), *r.pick(&[100.0, 0.0, 1.0, 1e18, f64::MAX]), *r.pick(&[0.1, 0.0, 1.0]), *r.pick(&[5u64, 0, 1, u64::MAX])) } else { match r.below(6) { 0 => DpParameters::new(0.0, 0.0, 0.5, 100.0, 0.1, 5), 1 => DpParameters::new(1.0, 1e-5, 0.0, 100.0, 0.1, 5), 2 => DpParameters::new(1.0, 1e-5, 1.0, 100.0, 0.1, 5),
+            3 => DpParameters::new(1e-300, 1e-300, 0.5, 1.0, 0.0, 1), 4 => DpParameters::new(1e6, 0.999, 0.5, 1e18, 1.0, 1000000), _ => DpParameters::from_epsilon_delta(1.0, 1e-5) } };
         match catch_unwind(AssertUnwindSafe(|| rel.clone().rewrite_as_privacy_unit_preserving(&w.relations, Some(w.synthetic.clone()), w.privacy_unit.clone(), p.clone(), None))) {
             Ok(Ok(rw)) => { st.bump("pup_rewritten"); if catch_unwind(AssertUnwindSafe(|| render(rw.relation()))).is_err() { fail(&mut st, "render of the privacy-unit preserving rewriting"); } }
             Ok(Err(_)) => st.bump("pup_error_value"), Err(_) => fail(&mut st, "privacy-unit preserving rewriting") }
